@@ -16,7 +16,7 @@ reachable nodes having head ≥ new−1 (they signed `new`) — and must not lag
 the model).
 -/
 import Drand.Net.Protocol
-namespace Drand.Driver
+namespace Drand.Driver.NetD
 open Drand.Net
 
 structure NetDrv where
@@ -171,4 +171,4 @@ def netStep (d : NetDrv) (f : List String) : NetDrv × String :=
                 | none => match cur with | some e => s!"bad:{e}" | none => "ok"
           ({ d1 with s := s1, hist := hist, obs := o, reachM := reachM, reachO := reachO }, s!"m={showNats mh} r={round} x={exact} v={v}")
 
-end Drand.Driver
+end Drand.Driver.NetD
